@@ -80,6 +80,9 @@ CHECKS = {
  "C16": dict(cat="fault_enumeration", tech="exhaustive fault injection at every call on the DuckDB connection (counting proxy installed at duckdb.connect) + real faults + Hypothesis stateful sequences of failing and good runs",
    text="For every configuration (script, CSV/DataFrame inputs, output folder, in-memory/file-backed) every one of the K connection calls is a fault point; after each failing run: no session directory, no database file, connection closed, no fd into the temp dir, and a following good run equals the reference; plus malformed inputs, unwritable output folder, invalid engine settings and sequences of up to 3 failures.",
    note="Faults are injected at the Python boundary of the connection; native-level faults are not simulated. Quick tier enumerates all fault points of a rotating subset of configurations, thorough of all 128.", ref="§3 C16"),
+ "C17": dict(cat="exploration", tech="controlled-schedule exploration: sys.settrace gate scheduler forcing enumerated and Hypothesis-generated interleavings of two or three API calls at engine function boundaries + 8-thread stress batches; oracle = each call's single-threaded result",
+   text="Pairs/triples of API calls (run with different scripts, output formats, viral rules, number configuration, semantic_analysis, prettify, validate_dataset, create_ast) are suspended at 13 engine functions that read or write process-wide state and released in enumerated orders (k steps of one thread, then the other, for every k within the bound; all short alternations) and in generated orders; every call must return exactly what it returns alone and no schedule may hang.",
+   note="Interleavings are explored at Python function granularity at the gated functions only; preemption inside native code (DuckDB, parser) is exercised only by the stress batches. A stall is reported as a violation only when a thread is blocked in an engine lock; other stalls are harness errors (exit 2).", ref="§3 C17"),
 }
 NOT_YET = "check not built yet in this session (work in progress, see DESIGN.md §5)"
 
